@@ -44,9 +44,10 @@ def obligations(prop, entries, tier, call, gens=("generic", "generated"), offmax
                 fns.append("h_" + tag)
             obs.append({
                 "id": "%s/%s/%s%s" % (prop, key, gen, idsuffix),
-                "module": ("m_%s_%s_%s%s" % (prop, key, gen, idsuffix)).replace("-", "_").lower(),
+                "module": ("m_%s_%s_%s%s" % (prop, key, gen, idsuffix)).replace("-", "_").replace("/", "_").lower(),
                 "source": src, "fn": fns,
                 "required_tags": [t for t in required if not (t == "accepted" and "noaccept" in e["tags"])],
+                "entry_tags": sorted(e["tags"]),
                 "bound": "raw = symbolic bytes of every total length %d..%d, start offset symbolic in [%d,%d]; "
                          "declaration %s (%s code)" % (min(ts), max(ts), offmin, offmax, key, gen),
                 "assertion": assertion,
